@@ -560,6 +560,9 @@ func (k *sink) consume(ctx context.Context, data any) error {
 		err, res = sinkErr{k: e, under: context.DeadlineExceeded}, "fail"
 	} else if res == "failcx" {
 		err, res = sinkErr{k: e, under: context.Canceled}, "fail"
+	} else if res == "failperm" {
+		// a failure the next consumer marks as permanent (consumererror.NewPermanent): still this export's own failure
+		err, res = consumererror.NewPermanent(sinkErr{k: e}), "fail"
 	}
 	r.log("ExportEnd", map[string]any{"e": e, "k": res, "x": ctxName(ctx)})
 	return err
